@@ -9,12 +9,17 @@ CONSTANTS
   Shapes = {"nsc"}
   Rich = FALSE
   SparseSet = {FALSE, TRUE}
+  Reads = 2
 INVARIANT DelimPrefix
 INVARIANT DelimDone
 INVARIANT WriteRead
+INVARIANT AppendRead
 INVARIANT ArffSound
 INVARIANT CsvSound
 INVARIANT SvmSound
+INVARIANT ArffReuse
+INVARIANT CsvReuse
+INVARIANT SvmReuse
 INVARIANT DelimEmit
 INVARIANT ArffEmit
 INVARIANT CsvEmit
